@@ -2,6 +2,7 @@
 (spec/ChainTime.tla, spec/Controller.tla)."""
 import json
 import os
+from concurrent.futures import ThreadPoolExecutor
 import vf
 
 PID = "C03"
@@ -41,11 +42,11 @@ def ct_scenarios(tier):
     return [{"sc": i + 1, "steps": h} for i, h in enumerate(hs)]
 
 
-def chaintime_part(v, tier):
-    v.add_mc(vf.tlc_exhaustive(PID, "MC_ChainTime", "MC_ChainTime.cfg", name="mc-ct"))
+def ct_mc(tier):
+    res = [vf.tlc_exhaustive(PID, "MC_ChainTime", "MC_ChainTime.cfg", name="mc-ct", workers=4)]
     if tier == "thorough":
-        v.add_mc(vf.tlc_exhaustive(PID, "MC_ChainTime", "MC_ChainTime_big.cfg", name="mc-ct-big"))
-    vf.conformance(v, ct_scenarios(tier), ct_driver, "Trace_ChainTime", "Trace_ChainTime.cfg", ct_sig, ct_nontrivial)
+        res.append(vf.tlc_exhaustive(PID, "MC_ChainTime", "MC_ChainTime_big.cfg", name="mc-ct-big"))
+    return res
 
 
 # ------------------------------------------------------------------------------------------
@@ -81,6 +82,8 @@ def ctl_sig(s):
         "start_in_epoch0_after_fork": bool(first) and now // cfg["p"] == 0 and cfg["fork"] == 0,
         "waited_for_genesis": bool(first and first.get("w")),
         "delayed_replies": "Hold" in evs,
+        # duty kinds for which a reply was delivered after a newer reply for the same epoch had been obtained
+        "late_reply": late_kinds(s["steps"]),
         "reorg": "Reorg" in evs,
         "restart": sum(1 for st in s["steps"] if st["ev"] == "Start") > 1,
     }
@@ -97,24 +100,45 @@ def ctl_nontrivial(s, rows):
     return had_jobs and (refresh or restart or ran)
 
 
-def ctl_scenarios(tier):
-    fams = [("Scen_Controller.cfg", 320 if tier == "quick" else 2400, 160),
-            ("Scen_Controller_wide.cfg", 120 if tier == "quick" else 1200, 260)]
-    out = []
-    for cfg, n, depth in fams:
-        hs = vf.tlc_scenarios(PID, "Scen_Controller", cfg, num=n * 2, depth=depth,
-                              name="scen-" + cfg.replace(".cfg", ""), timeout=900)
-        out += hs[:n]
-    return [{"sc": i + 1, "steps": h} for i, h in enumerate(out)]
+def late_kinds(h):
+    return "+".join(sorted({st["k"] for st in h if st["ev"] == "Release" and st.get("late")}))
 
 
-def controller_part(v, tier):
-    v.add_mc(vf.tlc_exhaustive(PID, "MC_Controller", "MC_Controller.cfg", name="mc-ctl"))
+def ctl_families(tier):
+    q = tier == "quick"
+    # (cfg, behaviours wanted, simulation runs, depth); the last one is enumerated exhaustively:
+    # design-level counterexamples of NoStaleJob (overlapping refreshes) among short start-up /
+    # head event / reorg / delayed-reply histories, to be replayed on the real code
+    return [("Scen_Controller.cfg", 300 if q else 1500, 500 if q else 3000, 160),          # small chain, all stimuli
+            ("Scen_Controller_wide.cfg", 100 if q else 600, 160 if q else 1200, 260),      # other chain parameters
+            ("Scen_Controller_gated_sim.cfg", 30 if q else 200, 120 if q else 1000, 200),  # delayed duty replies
+            ("Scen_Controller_gated.cfg" if q else "Scen_Controller_gated_big.cfg", 1 if q else 30, 0, 0)]
+
+
+def ctl_generate(fam):
+    cfg, n, runs, depth = fam
+    name = "scen-" + cfg.replace(".cfg", "")
+    if runs:
+        return vf.tlc_scenarios(PID, "Scen_Controller", cfg, num=runs, depth=depth, name=name, timeout=900)[:n]
+    hs = vf.tlc_scenarios(PID, "Scen_Controller", cfg, exhaustive=True, workers=min(vf.NCPU, 8), name=name, timeout=1200)
+    by, out = {}, []
+    for h in sorted(hs, key=len):
+        by.setdefault(late_kinds(h), []).append(h)
+    for k in sorted(by):
+        out += by[k][:n]
+    return out
+
+
+def ctl_mc(tier):
+    res = [vf.tlc_exhaustive(PID, "MC_Controller", "MC_Controller.cfg", name="mc-ctl")]
     if tier == "thorough":
-        v.add_mc(vf.tlc_exhaustive(PID, "MC_Controller", "MC_Controller_big.cfg", name="mc-ctl-big",
-                                   workers=min(vf.NCPU, 12), timeout=1500, heap="8g", coverage=False))
-    vf.conformance(v, ctl_scenarios(tier), ctl_driver, "Trace_Controller", "Trace_Controller.cfg",
-                   ctl_sig, ctl_nontrivial, dfs=True, chunk=200 if tier == "quick" else 400)
+        res.append(vf.tlc_exhaustive(PID, "MC_Controller", "MC_Controller_big.cfg", name="mc-ctl-big",
+                                     workers=min(vf.NCPU, 10), timeout=1500, heap="8g"))
+        res.append(vf.tlc_exhaustive(PID, "MC_Controller", "MC_Controller_restart.cfg", name="mc-ctl-restart",
+                                     workers=min(vf.NCPU, 10), timeout=1500, heap="8g"))
+        res.append(vf.tlc_exhaustive(PID, "MC_Controller", "MC_Controller_gated.cfg", name="mc-ctl-gated",
+                                     workers=min(vf.NCPU, 10), timeout=1500, heap="8g"))
+    return res
 
 
 def run(tier):
@@ -127,8 +151,26 @@ def run(tier):
         "head events are delivered for the current slot and carry the roots in force; reorgs reach at most the previous epoch's boundary",
         "beacon node, accounts, clock, scheduler and duty services are scripted fakes at the controller's interfaces; the chain-time service is bound separately",
     ]
-    chaintime_part(v, tier)
-    controller_part(v, tier)
+    # TLC work that does not depend on the Go side runs side by side: exhaustive model checking and
+    # scenario generation (each run has its own scratch directory)
+    fams = ctl_families(tier)
+    with ThreadPoolExecutor(max_workers=7 if tier == "quick" else 3) as ex:
+        f_ctl_mc = ex.submit(ctl_mc, tier)
+        f_gen = [ex.submit(ctl_generate, f) for f in reversed(fams)]
+        f_ct_mc = ex.submit(ct_mc, tier)
+        f_ct_sc = ex.submit(ct_scenarios, tier)
+        for r in f_ct_mc.result() + f_ctl_mc.result():
+            v.add_mc(r)
+        ct_sc = f_ct_sc.result()
+        ctl_hs = [h for f in reversed(f_gen) for h in f.result()]
+    ctl_sc = [{"sc": i + 1, "steps": h} for i, h in enumerate(ctl_hs)]
+    vf.conformance(v, ct_sc, ct_driver, "Trace_ChainTime", "Trace_ChainTime.cfg", ct_sig, ct_nontrivial)
+    if v.violations:
+        # every job time of the controller is computed from these conversions: stop here
+        vf.log("chain time deviates from ChainTime.tla: controller part not run")
+        return v.finish()
+    vf.conformance(v, ctl_sc, ctl_driver, "Trace_Controller", "Trace_Controller.cfg",
+                   ctl_sig, ctl_nontrivial, dfs=True, chunk=250 if tier == "quick" else 400)
     v.coverage["rule"] = ("chain time: TLC-enumerated parameter sweep (slot duration x slots per epoch x genesis position) replayed on "
                           "chaintime/standard, non-trivial = epoch-side conversions and a clock reading sampled; controller: behaviours "
                           "of Controller.tla from TLC simulation (seeded) over seed-derived duty oracles and configuration families, "
